@@ -189,6 +189,75 @@ def callees(body):
     return res
 
 
+def inline_helpers(rows, files):
+    """An UNGUARDED export that calls a private free function defined under ffi/ (a helper that is
+    not itself exported) is judged by what that helper calls: the helper's name is replaced by the
+    callees of its body (transitively; calls of the helper's own parameters are calls of closures
+    written, and scanned, at the call site).  So extracting a few lines of an unguarded export into
+    a local function neither hides a call from `T-exports` nor needs a new allow-list entry."""
+    helpers = {}
+    for p in sorted(files):
+        src = strip_rust(read(p))
+        for m in re.finditer(r'(?<!")\s\bfn\s+(\w+)\s*(?:<[^>{}()]*>)?\s*\(', src):
+            pre = src[max(0, m.start() - 40):m.start() + 1]
+            if re.search(r'extern\s+""\s*$', pre) or m.group(1).startswith("$"):
+                continue
+            # free functions only: not inside an impl/trait block (brace depth 0 or inside `mod`)
+            head = src[:m.start()]
+            depth_ok = True
+            opens = []
+            for t in re.finditer(r"\b(impl|trait|macro_rules)\b[^;{]*\{|[{}]", head):
+                x = t.group(0)
+                if x == "}":
+                    if opens:
+                        opens.pop()
+                elif x == "{":
+                    opens.append("")
+                else:
+                    opens.append(t.group(1))
+            if any(o in ("impl", "trait", "macro_rules") for o in opens):
+                continue
+            k = match_brace(src, m.end() - 1, "(", ")")
+            params = set(re.findall(r"(\w+)\s*:", src[m.end():k]))
+            nb = src.find("{", k)
+            semi = src.find(";", k)
+            if nb < 0 or (0 <= semi < nb):
+                continue
+            body = src[nb:match_brace(src, nb)]
+            if m.group(1) not in helpers:
+                helpers[m.group(1)] = (params, callees(body))
+    exported = {r[0] for r in rows}
+    # helpers that the reviewed allow-list justifies by name stay as they are
+    try:
+        reviewed = set(re.findall(r'"([^"]+)"', open(os.path.join(ROOT, "lean/Sourmash/Spec/PanicFree.lean")).read()))
+    except OSError:
+        reviewed = set()
+    for h in list(helpers):
+        if h in reviewed:
+            del helpers[h]
+
+    def expand(cs, seen):
+        out = []
+        for c in cs:
+            base = c.split("::")[-1]
+            pre = c.split("::")[0] if "::" in c else ""
+            local = (not c.startswith(".")) and (not c.endswith("!")) and base in helpers and base not in exported \
+                and (pre == "" or pre.islower())
+            if local and base not in seen:
+                params, inner = helpers[base]
+                out += [x for x in expand(inner, seen | {base}) if x not in params]
+            else:
+                out.append(c)
+        res, s2 = [], set()
+        for c in out:
+            if c not in s2:
+                s2.add(c)
+                res.append(c)
+        return res
+
+    return [(n, g, cs if g else expand(cs, set()), rel, hr) for (n, g, cs, rel, hr) in rows]
+
+
 def parse_exports():
     rows = []
     ffi = os.path.join(CORE, "ffi")
@@ -234,6 +303,7 @@ def parse_exports():
             b = src.index("{", k)
             body = src[b:match_brace(src, b)]
             rows.append((m.group(1), False, callees(body), rel, False))
+    rows = inline_helpers(rows, files)
     # macro_rules! ffi_fn must still wrap the body in landingpad, otherwise `guarded` means nothing
     utils = strip_rust(read(os.path.join(ffi, "utils.rs")))
     mm = re.search(r"macro_rules\s*!\s*ffi_fn\s*\{", utils)
